@@ -9,6 +9,9 @@ package grpcgcp
 //@ import connectivity "google.golang.org/grpc/connectivity"
 //@ import resolver "google.golang.org/grpc/resolver"
 //@ import pb "github.com/GoogleCloudPlatform/grpc-gcp-go/grpcgcp/grpc_gcp"
+//@ import reflect "reflect"
+//@ import context "context"
+//@ autotag nopanic gcp_picker.go C11
 
 //@ autotag nopanic gcp_balancer.go C05
 //@ autotag nopanic gcp_picker.go C05
@@ -30,13 +33,14 @@ package grpcgcp
 //@ protect gcpBalancer.{cfg,methodCfg,unresponsiveDetection} init_once gcpBalancer.mu
 //@ protect gcpBalancer.{cc,csEvltr,log} immutable
 //@ protect gcpBalancer.rrRefId atomic
-//@ protect subConnRef.{subConn,stateSignal,lastResp,refreshing,refreshCnt} guarded_by gcpBalancer.mu
+//@ protect subConnRef.{subConn,stateSignal,refreshing} guarded_by gcpBalancer.mu
+//@ protect subConnRef.{lastResp,refreshCnt} guarded_by subConnRef.respMu
 //@ protect subConnRef.{affinityCnt,streamsCnt,deCalls} atomic
 //@ protect connectivityStateEvaluator.{numReady,numConnecting,numTransientFailure} guarded_by gcpBalancer.mu
 //@ protect gcpPicker.{gb,scRefs,log} immutable
 //@ protect errPicker.err immutable
 //@ guards gcpBalancer.mu: $created, $removed, $addrs, $connectRequested, $pubCount, $lastState, $lastPicker, $newCalls, $newFail, chanclosed
-//@ lockorder gcpPicker.mu < gcpBalancer.mu
+//@ lockorder gcpPicker.mu < gcpBalancer.mu < subConnRef.respMu
 
 // ---------------------------------------------------------------- type and package invariants
 
@@ -130,8 +134,19 @@ package grpcgcp
 //@ func newErrPicker
 //@   ensures result is *errPicker && result.(*errPicker).err == err
 //@
+//@ func keysFromMessage
+//@   requires 0 <= start && start <= len(path)
+//@   decreases len(path) - start
+//@   loop 1 invariant 0 <= i
+//@   loop 1 decreases rlen(valField) - i
+//@
+//@ func context.Context.Value(key) (v)
+//@   ensures v is *gcpContext ==> v.(*gcpContext) != nil
+//@
 //@ func (p *gcpPicker) Pick
 //@   requires info.Ctx != nil
+//@ func (p *gcpPicker) Pick$1
+//@   captures scRef != nil && p != nil && ctx != nil && len(p.scRefs) > 0 && (hasGCPCtx ==> gcpCtx != nil)
 //@ func (p *gcpPicker) getLeastBusySubConnRef
 //@   requires len(p.scRefs) > 0
 //@ func (p *gcpPicker) getAndIncrementSubConnRef
@@ -139,6 +154,25 @@ package grpcgcp
 //@ func (p *gcpPicker) getSubConnRef
 //@   inline
 //@ func (p *gcpPicker) detectUnresponsive
-//@   requires scRef != nil && ctx != nil
+//@   requires scRef != nil && ctx != nil && len(p.scRefs) > 0
 //@ func (p *gcpPicker) unresponsiveWindow
 //@   requires scRef != nil
+
+// ---------------------------------------------------------------- interceptors (C12)
+
+//@ protect gcpClientStream.{ClientStream} write_once gcpClientStream.Mutex
+//@ protect gcpClientStream.{initStreamErr} guarded_by gcpClientStream.Mutex
+//@ protect gcpClientStream.{cond,ctx,desc,cc,method,streamer,opts} immutable
+//@ cond gcpClientStream.cond uses gcpClientStream.Mutex
+//@ typeinv gcpClientStream := this.streamer != nil && this.cond != nil && this.ctx != nil
+//@
+//@ func GCPUnaryClientInterceptor
+//@   requires ctx != nil && invoker != nil
+//@ func GCPStreamClientInterceptor
+//@   requires ctx != nil && streamer != nil
+//@   constructor gcpClientStream
+//@ dyn field:gcpClientStream.streamer(ctx, desc, cc, method, opts) (cs, err)
+//@   ensures err == nil ==> cs != nil
+//@ func (cs *gcpClientStream) SendMsg
+//@ func (cs *gcpClientStream) RecvMsg
+//@   loop 1 blocking
